@@ -335,10 +335,10 @@ def c04(tier, seed):
         mc_cfg(res, name, inv=["TypeOK"], props=["BucketIsolation"], timeout=1800)
         if not q:
             mc_cfg(res, name, inv=["TypeOK"], props=["BucketIsolation"], consts={"MaxTx": "= 3", "MaxOps": "= 3"}, simulate=(40000, 40), timeout=1800)
-    fams = [("iso", []), ("isokv", ["-mode", "keyval"]), ("isokv", ["-mode", "keyonly"])] + SPARSE_ISO
+    fams = [("iso", []), ("isokv", ["-mode", "keyval"]), ("isokv", ["-mode", "keyonly"]), ("isomerge", [])] + SPARSE_ISO
     shards = fam_shards(fams, seed, 2 if q else 20, 3 if q else 4, 40 if q else 100)
     rs = core.drive_and_validate(res, shards, core.dev_set(), "a write to one bucket changed what a read of another bucket returns (or a bucket does not return its own data)",
-                                 "histories over adversarial bucket names ('a','ab','','a|b','b' with keys such that bucket+key concatenations coincide) for KV, lists, sets and sorted sets, with a full observation of every bucket after every transaction")
+                                 "histories over adversarial bucket names ('a','ab','','a|b','b' with keys such that bucket+key concatenations coincide) for KV, lists, sets and sorted sets, with a full observation of every bucket after every transaction; one family also merges and reopens")
     res.cov["samples"] = core.sample_events(rs[0]["trace"], 4, ops={"obs"})
     res.cov["distinct_nontrivial"] = core.distinct_events(rs, {"obs"})
     res.cov["rule"] = ("non-trivial = distinct full observations of every bucket of every structure taken after a transaction; TLC compares each with the model, "
